@@ -1014,7 +1014,9 @@ func localfsRun(args []string) int {
 	if o.Replay != "" {
 		b, err := os.ReadFile(o.Replay)
 		var doc struct {
-			Case localfsCase `json:"case"`
+			Case      localfsCase `json:"case"`
+			Signature string      `json:"signature"`
+			Detail    string      `json:"detail"` // present in replay files written by the runner, not in corpus files
 		}
 		if err == nil {
 			err = json.Unmarshal(b, &doc)
@@ -1030,6 +1032,15 @@ func localfsRun(args []string) int {
 			}
 			for a := 0; a < attempts && len(g.fails) == 0; a++ {
 				run([]*localfsCase{&doc.Case})
+				if doc.Signature != "" && doc.Detail != "" { // a replay written by the runner is about one failure class
+					kept := g.fails[:0]
+					for _, f := range g.fails {
+						if f.Signature == doc.Signature {
+							kept = append(kept, f)
+						}
+					}
+					g.fails = kept
+				}
 			}
 		}
 	} else {
